@@ -93,6 +93,29 @@ Theorem C19_zst_accepted_shape :
       /\ Forall (fun c => zst_status c = Some true) init /\ zst_status last = Some b.
 Proof. exact zst_accepted_shape. Qed.
 
+(* the same for any component whose status is not `true` (the decision the macro actually takes) *)
+Theorem C19_zst_rejected_status :
+  forall (s : option Z) (fs init : list uty) (c : uty) (rest : list uty),
+    components s fs = init ++ c :: rest -> rest <> [] -> zst_status c <> Some true ->
+    zst_status (UStruct s fs) = None.
+Proof. exact zst_rejected_status. Qed.
+
+(* ---- unsized enums: the status is the conjunction of the payloads' statuses ---- *)
+Theorem C19_zst_enum_value :
+  forall (vs : list (option uty)) (b : bool),
+    zst_status (UEnum vs) = Some b <->
+    (forall t, In (Some t) vs -> zst_status t <> None)
+    /\ (b = true <-> forall t, In (Some t) vs -> zst_status t = Some true).
+Proof. exact zst_enum_value. Qed.
+
+(* an enum one of whose variants' payloads may be zero sized, anywhere but last in a struct: rejected at compile time *)
+Theorem C19_zst_enum_rejected :
+  forall (s : option Z) (fs init : list uty) (vs : list (option uty)) (t : uty) (rest : list uty),
+    components s fs = init ++ UEnum vs :: rest -> rest <> [] ->
+    In (Some t) vs -> uty_wf t -> min_size t = 0 ->
+    zst_status (UStruct s fs) = None.
+Proof. exact zst_enum_rejected. Qed.
+
 (* ---- the documented valid forms keep compiling (repaired rule) ---- *)
 Theorem C19_valid_align1_plain :
   forall (fm : form) (c : bool) (fs : list fld),
@@ -193,4 +216,21 @@ Example C19_nonvacuous_zst :
   /\ zst_status (UStruct None [UList; UList]) = Some true
   /\ run_c19 [0; 0; 0; 2; 1; 0; 6; 2; 1; 1; 0; 0] = [0]                         (* the D13 declaration is rejected *)
   /\ run_c19 [0; 0; 0; 1; 1; 0; 1; 1; 0; 0] = [1; 1; 1; 1; 0].                  (* #[repr(C)] struct { u8 } *)
+Proof. vm_compute. repeat split; reflexivity. Qed.
+
+Example C19_nonvacuous_zst_enum :
+  let may_end_empty := UEnum [None; Some UList; Some URemaining] in
+  let never_empty := UEnum [None; Some UList] in
+  let of_zst_struct := UEnum [None; Some zst_at_end] in
+  zst_status may_end_empty = Some false /\ zst_status never_empty = Some true /\ zst_status of_zst_struct = Some false
+  /\ zst_status (UEnum [None]) = Some true
+  /\ zst_status (UEnum [Some URemaining; Some (UStruct (Some 0) [UList])]) = None      (* a payload that does not evaluate *)
+  /\ zst_status (UStruct (Some 1) [may_end_empty; UList]) = None
+  /\ zst_status (UStruct (Some 1) [UList; may_end_empty]) = Some false
+  /\ zst_status (UStruct (Some 1) [never_empty; UList]) = Some true
+  /\ zst_status (UStruct (Some 1) [UList; of_zst_struct; UList]) = None
+  /\ zst_status (UStruct None [of_zst_struct]) = Some false
+  /\ umenu 10 = Some may_end_empty /\ umenu 11 = Some never_empty /\ umenu 12 = Some of_zst_struct
+  /\ run_c19 [5; 0; 0; 0; 1; 1; 0; 2; 10; 0] = [0]                               (* struct { u8, EnumMayEndEmpty, List<u8> } *)
+  /\ run_c19 [5; 0; 0; 0; 1; 1; 0; 2; 11; 0] = [1; 1; 1; 1; 8; 1; 1; 1; 1; 1; 1; 1; 1].
 Proof. vm_compute. repeat split; reflexivity. Qed.
